@@ -401,6 +401,26 @@ where
         &mut self,
         diff: &Diff<T>,
     ) -> StdResult<(), Self::Error> {
+        // Verify against the checkpoint before touching
+        // the file so a refused request changes nothing
+        {
+            let mut tree = CommitTree::new();
+            for record in diff.patch.records() {
+                tree.insert(*record.commit().as_ref());
+            }
+            tree.commit();
+            let computed = tree.head()?;
+            if computed != diff.checkpoint {
+                return Err(Error::CheckpointVerification {
+                    checkpoint: diff.checkpoint.root,
+                    computed: computed.root,
+                    snapshot: None,
+                    rollback_completed: false,
+                }
+                .into());
+            }
+        }
+
         // Create a snapshot for disc-based implementations
         let snapshot = self.try_create_snapshot().await?;
 
